@@ -110,7 +110,7 @@ def run_generic(prop, tier, seed, t0):
     root = open(os.path.join(fw.LEAN_DIR, "Ovldverif.lean")).read()
     modules = [m for m in spec["modules"] + ["Ovldverif.Lemmas.Fuel"] if m in root]
     audit = fw.lean_audit(modules)
-    nb, per = (16, 14) if tier == "quick" else (64, 60)
+    nb, per = (16, 50) if tier == "quick" else (64, 250)
     outs = []
     for st in spec["streams"]:
         mod, fn, mk, layer = STREAMS[st]
